@@ -799,8 +799,8 @@ Qed.
 Lemma base_property_member : forall ms n ds fn, base_property ms n ds = Some fn -> has_key n ms = true.
 Proof.
   induction ds as [|d r IH]; simpl; intros; [discriminate|].
-  destruct d as [p|bs f0]; auto.
-  destruct ((String.eqb f0 "setter" || String.eqb f0 "deleter") && String.eqb bs n && member_is_property ms n) eqn:E; auto.
+  destruct d as [p|bs f0]; [eauto|].
+  destruct ((String.eqb f0 "setter" || String.eqb f0 "deleter") && String.eqb bs n && member_is_property ms n) eqn:E; [|eauto].
   apply andb_prop in E. destruct E as [_ E]. unfold member_is_property in E. unfold has_key.
   destruct (lookup n ms); [reflexivity|discriminate].
 Qed.
@@ -870,3 +870,564 @@ Proof.
         specialize (IH f2); destruct (op_importfrom g ln eln r f2) as [f3 evs] end.
       simpl fst in *. rewrite IH. cbn [fmembers set_members fpath]. rewrite keys_assign_extend. reflexivity.
 Qed.
+
+(* unfolding of the declarative binding functions *)
+Lemma lb_SDef : forall k path g pk ln dln eln name a ds body,
+  level_bindings k path g pk (SDef ln dln eln name a ds body) =
+  if def_is_property a ds then [mkB name ln BProp false g]
+  else (if def_is_overload ds then [] else [mkB name (def_first_line ln dln ds) BFun false g]) ++
+       (match k with InClass => if String.eqb name "__init__" then init_bindings_list g PFunction body else [] | _ => [] end).
+Proof. reflexivity. Qed.
+Lemma lbl_eq : forall k path l g pk,
+  (fix lbl (g : bool) (pk : pkind) (l : list stmt) {struct l} : list binding :=
+     match l with [] => [] | x :: r => level_bindings k path g pk x ++ lbl g pk r end) g pk l
+  = level_bindings_list k path g pk l.
+Proof. induction l; intros; simpl; [reflexivity|]. rewrite IHl. reflexivity. Qed.
+Lemma lb_SIf : forall k path g pk tc body orelse,
+  level_bindings k path g pk (SIf tc body orelse) =
+  level_bindings_list k path (g || (is_level pk && tc)) PIf body ++ level_bindings_list k path g PIf orelse.
+Proof. intros. simpl. rewrite !lbl_eq. reflexivity. Qed.
+Lemma lb_SBlock : forall k path g pk ch, level_bindings k path g pk (SBlock ch) = level_bindings_list k path g POther ch.
+Proof. intros. simpl. rewrite !lbl_eq. reflexivity. Qed.
+Lemma lb_SSub : forall k path g pk h body,
+  level_bindings k path g pk (SSub h body) = level_bindings_list k path g (if h then PHandler else POther) body.
+Proof. intros. simpl. rewrite !lbl_eq. reflexivity. Qed.
+Lemma ib_SIf : forall g pk tc body orelse,
+  init_bindings g pk (SIf tc body orelse) =
+  init_bindings_list (g || (is_level pk && tc)) PIf body ++ init_bindings_list g PIf orelse.
+Proof. reflexivity. Qed.
+Lemma ib_SBlock : forall g pk ch, init_bindings g pk (SBlock ch) = init_bindings_list g POther ch.
+Proof. reflexivity. Qed.
+Lemma ib_SSub : forall g pk h body, init_bindings g pk (SSub h body) = init_bindings_list g (if h then PHandler else POther) body.
+Proof. reflexivity. Qed.
+
+(* what one statement contributes to the names of the receiving level *)
+Definition level_names (own : frame) (g : bool) (pk : pkind) (s : stmt) : list string :=
+  match fkind own with
+  | InInit => map b_name (init_bindings g pk s)
+  | k => map b_name (level_bindings k (fpath own) g pk s)
+  end.
+Definition level_names_list (own : frame) (g : bool) (pk : pkind) (l : list stmt) : list string :=
+  match fkind own with
+  | InInit => map b_name (init_bindings_list g pk l)
+  | k => map b_name (level_bindings_list k (fpath own) g pk l)
+  end.
+Definition receiver (own up : frame) : frame := match fkind own with InInit => up | _ => own end.
+
+Definition names_stmt (s : stmt) : Prop := forall g pk nd own up,
+  let r := sem_stmt g pk nd s own up in
+  keys (fmembers (receiver (l_own r) (l_up r))) = extend (keys (fmembers (receiver own up))) (level_names own g pk s).
+Definition names_list (l : list stmt) : Prop := forall g pk follow own up,
+  let r := sem_list g pk follow l own up in
+  keys (fmembers (receiver (l_own r) (l_up r))) = extend (keys (fmembers (receiver own up))) (level_names_list own g pk l).
+
+Lemma level_names_cons : forall own g pk x r,
+  level_names_list own g pk (x :: r) = level_names own g pk x ++ level_names_list own g pk r.
+Proof. intros. unfold level_names_list, level_names. destruct (fkind own); simpl; apply map_app. Qed.
+
+Lemma level_names_shape : forall own own' g pk l, same_shape own own' -> level_names_list own' g pk l = level_names_list own g pk l.
+Proof. unfold level_names_list, same_shape. intros ? ? ? ? ? [A [_ B]]. rewrite A, B. reflexivity. Qed.
+
+Lemma receiver_shape_kind : forall own own' up', fkind own' = fkind own -> receiver own' up' = match fkind own with InInit => up' | _ => own' end.
+Proof. unfold receiver. intros. rewrite H. reflexivity. Qed.
+
+Lemma names_list_of : forall l, Forall names_stmt l -> names_list l.
+Proof.
+  induction 1 as [|x r Hx Hr IH]; intros g pk follow own up.
+  - unfold level_names_list. simpl. destruct (fkind own); reflexivity.
+  - cbv zeta. rewrite sem_list_cons. cbv zeta. cbn [l_own l_up].
+    destruct (sem_facts_all x g pk (next_doc r follow) own up) as [A1 _].
+    set (a := sem_stmt g pk (next_doc r follow) x own up) in *.
+    pose proof (IH g pk follow (l_own a) (l_up a)) as B. cbv zeta in B. rewrite B.
+    pose proof (Hx g pk (next_doc r follow) own up) as C. cbv zeta in C. fold a in C. rewrite C.
+    rewrite level_names_cons, extend_app, (level_names_shape own (l_own a) g pk r A1). reflexivity.
+Qed.
+
+Lemma descends_kind : forall own name a ds, descends own name a ds = true ->
+  fkind own = InClass /\ String.eqb name "__init__" = true /\ def_is_property a ds = false.
+Proof.
+  unfold descends. intros. destruct (fkind own); try discriminate.
+  apply andb_prop in H. destruct H as [H1 H2]. destruct (def_is_property a ds); try discriminate. auto.
+Qed.
+
+Lemma names_stmt_all : forall s, names_stmt s.
+Proof.
+  induction s using stmt_ind2; intros g pk nd own up; cbv zeta.
+  - (* SDef *)
+    rewrite sem_SDef. cbv zeta.
+    pose proof (keys_op_def g ln dln eln name a ds (head_doc body) own) as K.
+    pose proof (shape_op_def g ln dln eln name a ds (head_doc body) own) as [S1 [_ S3]].
+    destruct (descends own name a ds) eqn:D.
+    + destruct (descends_kind _ _ _ _ D) as [Kd [Nm Pr]].
+      cbn [l_own l_up]. unfold receiver at 1 2. rewrite Kd.
+      pose proof (names_list_of _ H g PFunction None (empty_frame InInit name (child_path own name))
+                    (fst (op_def g ln dln eln name a ds (head_doc body) own))) as B.
+      cbv zeta in B. unfold receiver in B.
+      destruct (sem_list_facts body g PFunction None (empty_frame InInit name (child_path own name))
+                  (fst (op_def g ln dln eln name a ds (head_doc body) own))) as [[E _] _].
+      rewrite E in B. simpl fkind in B. cbv iota in B.
+      assert (R : match fkind (l_up (sem_list g PFunction None body (empty_frame InInit name (child_path own name))
+                                      (fst (op_def g ln dln eln name a ds (head_doc body) own)))) with
+                  | InInit => up | _ => l_up (sem_list g PFunction None body (empty_frame InInit name (child_path own name))
+                                      (fst (op_def g ln dln eln name a ds (head_doc body) own))) end
+                  = l_up (sem_list g PFunction None body (empty_frame InInit name (child_path own name))
+                                      (fst (op_def g ln dln eln name a ds (head_doc body) own)))).
+      { destruct (sem_list_facts body g PFunction None (empty_frame InInit name (child_path own name))
+                  (fst (op_def g ln dln eln name a ds (head_doc body) own))) as [_ [[E2 _] _]]. rewrite E2, S1, Kd. reflexivity. }
+      rewrite R, B, K.
+      unfold level_names, level_names_list. rewrite Kd. simpl fkind. cbv iota. rewrite lb_SDef, Pr, Nm.
+      unfold def_names. rewrite Pr. rewrite map_app, extend_app.
+      destruct (def_is_overload ds); reflexivity.
+    + cbn [l_own l_up]. unfold receiver, level_names. rewrite S1. unfold descends in D.
+      destruct (fkind own) eqn:Kd.
+      * rewrite K, lb_SDef. unfold def_names. destruct (def_is_property a ds); [reflexivity|].
+        rewrite app_nil_r. destruct (def_is_overload ds); reflexivity.
+      * rewrite K, lb_SDef. unfold def_names. destruct (def_is_property a ds) eqn:Pr; [reflexivity|].
+        rewrite andb_true_r in D. rewrite D, app_nil_r. destruct (def_is_overload ds); reflexivity.
+      * reflexivity.
+  - (* SCls *)
+    rewrite sem_SCls. cbv zeta. cbn [l_own l_up]. unfold receiver, level_names. cbn [fkind set_members fmembers].
+    destruct (fkind own); try reflexivity; apply keys_assign_extend.
+  - (* SAssign *)
+    simpl sem_stmt. unfold level_names, receiver. unfold op_attr. destruct (fkind own) eqn:Kd.
+    + simpl level_bindings. destruct (names_scope ts) as [names|]; [|cbn [l_own l_up]; rewrite Kd; reflexivity].
+      pose proof (keys_attr_loop (is_cond pk) g ln eln items false names (attr_labels InModule true false) nd own) as Ka.
+      pose proof (shape_attr_loop (is_cond pk) g ln eln items false names (attr_labels InModule true false) nd own) as [Sa _].
+      destruct (attr_loop (is_cond pk) g ln eln items false names (attr_labels InModule true false) nd own) as [o' evs].
+      cbn [l_own l_up fst] in *. rewrite Sa, Kd, Ka, map_map. simpl. rewrite map_id. reflexivity.
+    + simpl level_bindings. destruct (names_scope ts) as [names|]; [|cbn [l_own l_up]; rewrite Kd; reflexivity].
+      pose proof (keys_attr_loop (is_cond pk) g ln eln items false names (attr_labels InClass true false) nd own) as Ka.
+      pose proof (shape_attr_loop (is_cond pk) g ln eln items false names (attr_labels InClass true false) nd own) as [Sa _].
+      destruct (attr_loop (is_cond pk) g ln eln items false names (attr_labels InClass true false) nd own) as [o' evs].
+      cbn [l_own l_up fst] in *. rewrite Sa, Kd, Ka, map_map. simpl. rewrite map_id. reflexivity.
+    + simpl init_bindings. destruct (names_init ts) as [names|]; [|cbn [l_own l_up]; rewrite Kd; reflexivity].
+      pose proof (keys_attr_loop (is_cond pk) g ln eln items false names (attr_labels InInit true false) nd up) as Ka.
+      destruct (attr_loop (is_cond pk) g ln eln items false names (attr_labels InInit true false) nd up) as [u' evs].
+      cbn [l_own l_up fst] in *. rewrite Kd, Ka, map_map. simpl. rewrite map_id. reflexivity.
+  - (* SAnn *)
+    simpl sem_stmt. unfold level_names, receiver. unfold op_attr. destruct (fkind own) eqn:Kd.
+    + simpl level_bindings. destruct (names_scope [t]) as [names|]; [|cbn [l_own l_up]; rewrite Kd; reflexivity].
+      pose proof (keys_attr_loop (is_cond pk) g ln eln items false names (attr_labels InModule hv cv) nd own) as Ka.
+      pose proof (shape_attr_loop (is_cond pk) g ln eln items false names (attr_labels InModule hv cv) nd own) as [Sa _].
+      destruct (attr_loop (is_cond pk) g ln eln items false names (attr_labels InModule hv cv) nd own) as [o' evs].
+      cbn [l_own l_up fst] in *. rewrite Sa, Kd, Ka, map_map. simpl. rewrite map_id. reflexivity.
+    + simpl level_bindings. destruct (names_scope [t]) as [names|]; [|cbn [l_own l_up]; rewrite Kd; reflexivity].
+      pose proof (keys_attr_loop (is_cond pk) g ln eln items false names (attr_labels InClass hv cv) nd own) as Ka.
+      pose proof (shape_attr_loop (is_cond pk) g ln eln items false names (attr_labels InClass hv cv) nd own) as [Sa _].
+      destruct (attr_loop (is_cond pk) g ln eln items false names (attr_labels InClass hv cv) nd own) as [o' evs].
+      cbn [l_own l_up fst] in *. rewrite Sa, Kd, Ka, map_map. simpl. rewrite map_id. reflexivity.
+    + simpl init_bindings. destruct (names_init [t]) as [names|]; [|cbn [l_own l_up]; rewrite Kd; reflexivity].
+      pose proof (keys_attr_loop (is_cond pk) g ln eln items false names (attr_labels InInit hv cv) nd up) as Ka.
+      destruct (attr_loop (is_cond pk) g ln eln items false names (attr_labels InInit hv cv) nd up) as [u' evs].
+      cbn [l_own l_up fst] in *. rewrite Kd, Ka, map_map. simpl. rewrite map_id. reflexivity.
+  - (* SAugAll *)
+    simpl sem_stmt. cbn [l_own l_up]. unfold receiver, level_names.
+    destruct (shape_op_augall items own) as [E _]. rewrite E.
+    assert (M : fmembers (op_augall items own) = fmembers own).
+    { unfold op_augall. destruct (fkind own); auto. destruct (fexports own); auto. destruct (items_ok items); auto. }
+    destruct (fkind own); try rewrite M; reflexivity.
+  - (* SImport *)
+    simpl sem_stmt. pose proof (keys_op_import g ln eln names own) as Ka.
+    pose proof (shape_op_import g ln eln names own) as [Sa _].
+    destruct (op_import g ln eln names own) as [o' evs]. cbn [l_own l_up fst] in *.
+    unfold receiver, level_names. rewrite Sa. destruct (fkind own); try exact Ka. reflexivity.
+  - (* SImportFrom *)
+    simpl sem_stmt. pose proof (keys_op_importfrom g ln eln names own) as Ka.
+    pose proof (shape_op_importfrom g ln eln names own) as [Sa _].
+    destruct (op_importfrom g ln eln names own) as [o' evs]. cbn [l_own l_up fst] in *.
+    unfold receiver, level_names. rewrite Sa. destruct (fkind own); try exact Ka. reflexivity.
+  - (* SIf *)
+    rewrite sem_SIf. cbv zeta. cbn [l_own l_up].
+    destruct (sem_list_facts body (g || (is_level pk && tc)) PIf (head_doc orelse) own up) as [A1 _].
+    set (a := sem_list (g || (is_level pk && tc)) PIf (head_doc orelse) body own up) in *.
+    pose proof (names_list_of _ H0 g PIf None (l_own a) (l_up a)) as B. cbv zeta in B. rewrite B.
+    pose proof (names_list_of _ H (g || (is_level pk && tc)) PIf (head_doc orelse) own up) as C. cbv zeta in C. fold a in C. rewrite C.
+    rewrite (level_names_shape own (l_own a) g PIf orelse A1), <- extend_app. f_equal.
+    unfold level_names, level_names_list. destruct (fkind own); rewrite ?lb_SIf, ?ib_SIf, map_app; reflexivity.
+  - (* SBlock *)
+    rewrite sem_SBlock. pose proof (names_list_of _ H g POther None own up) as B. cbv zeta in B. rewrite B.
+    unfold level_names, level_names_list. destruct (fkind own); rewrite ?lb_SBlock, ?ib_SBlock; reflexivity.
+  - (* SSub *)
+    rewrite sem_SSub. pose proof (names_list_of _ H g (if h then PHandler else POther) None own up) as B. cbv zeta in B. rewrite B.
+    unfold level_names, level_names_list. destruct (fkind own); rewrite ?lb_SSub, ?ib_SSub; reflexivity.
+  - simpl. unfold level_names. destruct (fkind own); reflexivity.
+  - simpl. unfold level_names. destruct (fkind own); reflexivity.
+Qed.
+
+Lemma names_list_all : forall l, names_list l.
+Proof. intros. apply names_list_of. apply Forall_forall. intros. apply names_stmt_all. Qed.
+
+Lemma fresh_level_names : forall k name path g body (up : frame), k <> InInit ->
+  keys (fmembers (l_own (sem_list g PScope None body (empty_frame k name path) up))) =
+  first_names [] (level_bindings_list k path g PScope body).
+Proof.
+  intros. pose proof (names_list_all body g PScope None (empty_frame k name path) up) as N. cbv zeta in N.
+  destruct (sem_list_facts body g PScope None (empty_frame k name path) up) as [[E _] _].
+  unfold receiver, level_names_list in N. rewrite E in N. simpl fkind in N. simpl fpath in N.
+  destruct k; try congruence; rewrite N; simpl fmembers; apply (extend_first_names _ [] []); reflexivity.
+Qed.
+
+Theorem one_member_per_bound_name : forall mname body r,
+  run_visit mname body = Ok r ->
+  map fst (r_members r) = first_names [] (level_bindings_list InModule mname false PScope body).
+Proof.
+  intros mname body r. rewrite machine_computes_level_semantics. unfold spec_module.
+  destruct (l_err _); [discriminate|]. intros E. injection E as E. subst r. cbn [r_members].
+  apply (fresh_level_names InModule mname mname false body sentinel). discriminate.
+Qed.
+
+(* every class statement, at whatever nesting depth it is evaluated, stores an object whose members are exactly the
+   names bound in its body, in order of first binding *)
+Theorem class_members_bound_names : forall g pk nd ln dln eln name ds body own up,
+  exists o, lookup name (fmembers (l_own (sem_stmt g pk nd (SCls ln dln eln name ds body) own up))) = Some o /\
+            ikind (oinfo o) = KCls /\
+            map fst (omembers o) = first_names [] (level_bindings_list InClass (child_path own name) g PScope body).
+Proof.
+  intros. rewrite sem_SCls. cbv zeta. cbn [l_own fmembers set_members]. rewrite lookup_assign_same.
+  eexists. split; [reflexivity|]. split; [reflexivity|]. cbn [omembers].
+  apply (fresh_level_names InClass name (child_path own name) g body sentinel). discriminate.
+Qed.
+
+(* ================= the surviving binding ================= *)
+Definition osum (o : obj) : okind * nat * bool := (ikind (oinfo o), iline (oinfo o), iruntime (oinfo o)).
+Definition bsum (b : binding) : okind * nat * bool := (okind_of_bkind (b_kind b), b_line b, negb (b_guard b)).
+Definition rel (o : option obj) (c : option binding) : Prop := option_map osum o = option_map bsum c.
+
+Lemma survivor_app : forall n a b c, survivor n c (a ++ b) = survivor n (survivor n c a) b.
+Proof. induction a as [|x a IH]; intros; simpl; auto. destruct (_ && _); apply IH. Qed.
+
+Lemma lookup_assign : forall A n m (v : A) l, lookup n (assign m v l) = if String.eqb m n then Some v else lookup n l.
+Proof.
+  intros. destruct (String.eqb m n) eqn:E.
+  - apply String.eqb_eq in E. subst. apply lookup_assign_same.
+  - apply lookup_assign_other. exact E.
+Qed.
+
+Lemma rel_set : forall n name o b ms c, b_name b = name -> b_kind b <> BAttr -> osum o = bsum b ->
+  rel (lookup n ms) c -> rel (lookup n (assign name o ms)) (survivor n c [b]).
+Proof.
+  intros. simpl. rewrite lookup_assign, H. unfold effective.
+  destruct (b_kind b) eqn:K; try congruence; rewrite andb_true_r;
+    (destruct (String.eqb name n); [unfold rel; simpl; congruence|exact H2]).
+Qed.
+
+Lemma no_accessor_base : forall ms n ds, existsb is_accessor ds = false -> base_property ms n ds = None.
+Proof.
+  induction ds as [|d r IH]; simpl; intros; auto.
+  destruct d; simpl in H; [auto|discriminate].
+Qed.
+
+Definition def_bindings (g : bool) (ln dln : nat) (name : string) (a : bool) (ds : list deco) : list binding :=
+  if def_is_property a ds then [mkB name ln BProp false g]
+  else if def_is_overload ds then [] else [mkB name (def_first_line ln dln ds) BFun false g].
+
+Lemma surv_op_def : forall n g ln dln eln name a ds doc f c,
+  existsb is_accessor ds = false -> rel (lookup n (fmembers f)) c ->
+  rel (lookup n (fmembers (fst (op_def g ln dln eln name a ds doc f)))) (survivor n c (def_bindings g ln dln name a ds)).
+Proof.
+  intros. unfold op_def, def_bindings. destruct (def_is_property a ds); simpl fst.
+  - cbn [fmembers set_members]. apply rel_set; auto. discriminate.
+  - destruct (def_is_overload ds); simpl fst; [exact H0|].
+    rewrite (no_accessor_base _ _ _ H). simpl fst. cbn [fmembers set_members]. apply rel_set; auto. discriminate.
+Qed.
+
+Lemma surv_attr_loop : forall n cond g ln eln items pf names labels doc f c,
+  rel (lookup n (fmembers f)) c ->
+  rel (lookup n (fmembers (fst (attr_loop cond g ln eln items pf names labels doc f))))
+      (survivor n c (map (fun m => mkB m ln BAttr cond g) (plain_names names))).
+Proof.
+  induction names as [|m r IH]; intros; [exact H|].
+  simpl attr_loop. unfold plain_names in *. simpl filter. destruct (has_dot m) eqn:D; simpl negb; cbv iota.
+  - apply IH. exact H.
+  - simpl map. simpl survivor. unfold effective. simpl b_kind. simpl b_cond. simpl b_name.
+    destruct (lookup m (fmembers f)) as [ex|] eqn:L.
+    + destruct cond.
+      * (* conditional re-assignment of an existing member: kept *)
+        destruct (String.eqb m n) eqn:E.
+        -- apply String.eqb_eq in E. subst m. unfold rel in H. rewrite L in H. destruct c; [|discriminate].
+           simpl. apply IH. unfold rel. rewrite L. exact H.
+        -- simpl. apply IH. exact H.
+      * match goal with |- context [attr_loop ?c0 ?g0 ?a0 ?b0 ?i0 ?p0 r ?l0 ?d0 ?f2] =>
+          specialize (IH l0 d0 f2); destruct (attr_loop c0 g0 a0 b0 i0 p0 r l0 d0 f2) as [f3 evs] eqn:EQ end.
+        simpl fst in *. rewrite andb_true_r. simpl andb.
+        assert (M : forall fr, fmembers (if String.eqb m "__all__" && items_ok items then set_exports fr (Some items) else fr) = fmembers fr)
+          by (intros; destruct (String.eqb m "__all__" && items_ok items); reflexivity).
+        destruct (String.eqb m n) eqn:E; apply IH; rewrite M; cbn [fmembers set_members]; rewrite lookup_assign, E;
+          [reflexivity|exact H].
+    + match goal with |- context [attr_loop ?c0 ?g0 ?a0 ?b0 ?i0 ?p0 r ?l0 ?d0 ?f2] =>
+        specialize (IH l0 d0 f2); destruct (attr_loop c0 g0 a0 b0 i0 p0 r l0 d0 f2) as [f3 evs] eqn:EQ end.
+      simpl fst in *.
+      assert (M : forall fr, fmembers (if String.eqb m "__all__" && items_ok items then set_exports fr (Some items) else fr) = fmembers fr)
+        by (intros; destruct (String.eqb m "__all__" && items_ok items); reflexivity).
+      destruct (String.eqb m n) eqn:E.
+      * apply String.eqb_eq in E. subst m. unfold rel in H. rewrite L in H. destruct c; [discriminate|].
+        simpl. rewrite andb_false_r. simpl. apply IH. rewrite M. cbn [fmembers set_members]. rewrite lookup_assign_same. reflexivity.
+      * simpl. apply IH. rewrite M. cbn [fmembers set_members]. rewrite lookup_assign_other; auto.
+Qed.
+
+Lemma surv_op_import : forall n g ln eln names f c,
+  rel (lookup n (fmembers f)) c ->
+  rel (lookup n (fmembers (fst (op_import g ln eln names f)))) (survivor n c (import_bindings g ln names)).
+Proof.
+  induction names as [|[an ap] r IH]; intros; [exact H|].
+  simpl op_import.
+  match goal with |- context [op_import g ln eln r ?f2] =>
+    specialize (IH f2); destruct (op_import g ln eln r f2) as [f3 evs] end.
+  simpl fst in *. change (import_bindings g ln ((an, ap) :: r)) with ([mkB an ln BAlias false g] ++ import_bindings g ln r).
+  rewrite survivor_app. apply IH. cbn [fmembers set_members set_imports]. apply rel_set; auto. discriminate.
+Qed.
+
+Lemma surv_op_importfrom : forall n g ln eln names f c,
+  rel (lookup n (fmembers f)) c ->
+  rel (lookup n (fmembers (fst (op_importfrom g ln eln names f)))) (survivor n c (importfrom_bindings g ln (fpath f) names)).
+Proof.
+  induction names as [|x r IH]; intros; [exact H|].
+  simpl op_importfrom. simpl importfrom_bindings. destruct x as [an ap|an ap|]; [| |apply IH; exact H].
+  - destruct (String.eqb ap (dot (fpath f) an)).
+    + apply (IH (set_imports f (assign an ap (fimports f)))). exact H.
+    + match goal with |- context [op_importfrom g ln eln r ?f2] =>
+        specialize (IH f2); destruct (op_importfrom g ln eln r f2) as [f3 evs] end.
+      simpl fst in *. change (?b :: importfrom_bindings g ln (fpath f) r) with ([b] ++ importfrom_bindings g ln (fpath f) r).
+      rewrite survivor_app. apply IH. cbn [fmembers set_members set_imports]. apply rel_set; auto. discriminate.
+  - destruct (String.eqb ap (dot (fpath f) an)).
+    + apply IH. exact H.
+    + match goal with |- context [op_importfrom g ln eln r ?f2] =>
+        specialize (IH f2); destruct (op_importfrom g ln eln r f2) as [f3 evs] end.
+      simpl fst in *. change (?b :: importfrom_bindings g ln (fpath f) r) with ([b] ++ importfrom_bindings g ln (fpath f) r).
+      rewrite survivor_app. apply IH. cbn [fmembers set_members]. apply rel_set; auto. discriminate.
+Qed.
+
+Lemma ha_SDef : forall ln dln eln name a ds body,
+  has_accessor (SDef ln dln eln name a ds body) = existsb is_accessor ds || has_accessor_list body.
+Proof. reflexivity. Qed.
+Lemma ha_SCls : forall ln dln eln name ds body, has_accessor (SCls ln dln eln name ds body) = has_accessor_list body.
+Proof. reflexivity. Qed.
+Lemma ha_SIf : forall tc body orelse, has_accessor (SIf tc body orelse) = has_accessor_list body || has_accessor_list orelse.
+Proof. reflexivity. Qed.
+Lemma ha_SBlock : forall ch, has_accessor (SBlock ch) = has_accessor_list ch.
+Proof. reflexivity. Qed.
+Lemma ha_SSub : forall h body, has_accessor (SSub h body) = has_accessor_list body.
+Proof. reflexivity. Qed.
+
+Definition level_binds (own : frame) (g : bool) (pk : pkind) (s : stmt) : list binding :=
+  match fkind own with InInit => init_bindings g pk s | k => level_bindings k (fpath own) g pk s end.
+Definition level_binds_list (own : frame) (g : bool) (pk : pkind) (l : list stmt) : list binding :=
+  match fkind own with InInit => init_bindings_list g pk l | k => level_bindings_list k (fpath own) g pk l end.
+
+Definition surv_stmt (s : stmt) : Prop := forall n g pk nd own up c,
+  has_accessor s = false -> rel (lookup n (fmembers (receiver own up))) c ->
+  let r := sem_stmt g pk nd s own up in
+  rel (lookup n (fmembers (receiver (l_own r) (l_up r)))) (survivor n c (level_binds own g pk s)).
+Definition surv_list (l : list stmt) : Prop := forall n g pk follow own up c,
+  has_accessor_list l = false -> rel (lookup n (fmembers (receiver own up))) c ->
+  let r := sem_list g pk follow l own up in
+  rel (lookup n (fmembers (receiver (l_own r) (l_up r)))) (survivor n c (level_binds_list own g pk l)).
+
+Lemma level_binds_shape : forall own own' g pk l, same_shape own own' -> level_binds_list own' g pk l = level_binds_list own g pk l.
+Proof. unfold level_binds_list, same_shape. intros ? ? ? ? ? [A [_ B]]. rewrite A, B. reflexivity. Qed.
+
+Lemma surv_list_of : forall l, Forall surv_stmt l -> surv_list l.
+Proof.
+  induction 1 as [|x r Hx Hr IH]; intros n g pk follow own up c HA HR.
+  - cbv zeta. unfold level_binds_list. simpl. destruct (fkind own); exact HR.
+  - cbv zeta. rewrite sem_list_cons. cbv zeta. cbn [l_own l_up].
+    simpl in HA. apply orb_false_elim in HA. destruct HA as [HA1 HA2].
+    destruct (sem_facts_all x g pk (next_doc r follow) own up) as [A1 _].
+    pose proof (Hx n g pk (next_doc r follow) own up c HA1 HR) as C. cbv zeta in C.
+    set (a := sem_stmt g pk (next_doc r follow) x own up) in *.
+    pose proof (IH n g pk follow (l_own a) (l_up a) _ HA2 C) as B. cbv zeta in B.
+    rewrite (level_binds_shape own (l_own a) g pk r A1) in B.
+    assert (E : level_binds_list own g pk (x :: r) = level_binds own g pk x ++ level_binds_list own g pk r).
+    { unfold level_binds_list, level_binds. destruct (fkind own); reflexivity. }
+    rewrite E, survivor_app. exact B.
+Qed.
+
+Lemma surv_stmt_all : forall s, surv_stmt s.
+Proof.
+  induction s using stmt_ind2; intros n g pk nd own up c HA HR; cbv zeta.
+  - (* SDef *)
+    rewrite ha_SDef in HA. apply orb_false_elim in HA. destruct HA as [HA1 HA2].
+    rewrite sem_SDef. cbv zeta.
+    pose proof (shape_op_def g ln dln eln name a ds (head_doc body) own) as [S1 [_ S3]].
+    destruct (descends own name a ds) eqn:D.
+    + destruct (descends_kind _ _ _ _ D) as [Kd [Nm Pr]].
+      cbn [l_own l_up]. unfold receiver in *. rewrite Kd in *.
+      pose proof (surv_op_def n g ln dln eln name a ds (head_doc body) own c HA1 HR) as K.
+      set (own1 := fst (op_def g ln dln eln name a ds (head_doc body) own)) in *.
+      pose proof (surv_list_of _ H n g PFunction None (empty_frame InInit name (child_path own name)) own1
+                    (survivor n c (def_bindings g ln dln name a ds)) HA2) as B.
+      cbv zeta in B. unfold receiver in B. simpl fkind in B. cbv iota in B. specialize (B K).
+      destruct (sem_list_facts body g PFunction None (empty_frame InInit name (child_path own name)) own1) as [[E _] [[E2 _] _]].
+      rewrite E in B. simpl fkind in B. cbv iota in B.
+      rewrite E2, S1.
+      unfold level_binds. rewrite Kd, lb_SDef, Pr, Nm.
+      unfold level_binds_list in B. simpl fkind in B. cbv iota in B.
+      unfold def_bindings in B. rewrite Pr in B. rewrite survivor_app. exact B.
+    + cbn [l_own l_up]. unfold receiver in *. rewrite S1. unfold descends in D. unfold level_binds.
+      destruct (fkind own) eqn:Kd.
+      * pose proof (surv_op_def n g ln dln eln name a ds (head_doc body) own c HA1 HR) as K.
+        rewrite lb_SDef. unfold def_bindings in K. destruct (def_is_property a ds); [exact K|]. rewrite app_nil_r. exact K.
+      * pose proof (surv_op_def n g ln dln eln name a ds (head_doc body) own c HA1 HR) as K.
+        rewrite lb_SDef. unfold def_bindings in K. destruct (def_is_property a ds) eqn:Pr; [exact K|].
+        rewrite andb_true_r in D. rewrite D, app_nil_r. exact K.
+      * exact HR.
+  - (* SCls *)
+    rewrite sem_SCls. cbv zeta. cbn [l_own l_up]. unfold receiver, level_binds in *. cbn [fkind set_members fmembers].
+    destruct (fkind own); try exact HR; apply rel_set; auto; discriminate.
+  - (* SAssign *)
+    simpl sem_stmt. unfold level_binds, receiver in *. unfold op_attr. destruct (fkind own) eqn:Kd.
+    + simpl level_bindings. destruct (names_scope ts) as [names|]; [|cbn [l_own l_up]; rewrite Kd; exact HR].
+      pose proof (surv_attr_loop n (is_cond pk) g ln eln items false names (attr_labels InModule true false) nd own c HR) as Ka.
+      pose proof (shape_attr_loop (is_cond pk) g ln eln items false names (attr_labels InModule true false) nd own) as [Sa _].
+      destruct (attr_loop (is_cond pk) g ln eln items false names (attr_labels InModule true false) nd own) as [o' evs].
+      cbn [l_own l_up fst] in *. rewrite Sa, Kd. exact Ka.
+    + simpl level_bindings. destruct (names_scope ts) as [names|]; [|cbn [l_own l_up]; rewrite Kd; exact HR].
+      pose proof (surv_attr_loop n (is_cond pk) g ln eln items false names (attr_labels InClass true false) nd own c HR) as Ka.
+      pose proof (shape_attr_loop (is_cond pk) g ln eln items false names (attr_labels InClass true false) nd own) as [Sa _].
+      destruct (attr_loop (is_cond pk) g ln eln items false names (attr_labels InClass true false) nd own) as [o' evs].
+      cbn [l_own l_up fst] in *. rewrite Sa, Kd. exact Ka.
+    + simpl init_bindings. destruct (names_init ts) as [names|]; [|cbn [l_own l_up]; rewrite Kd; exact HR].
+      pose proof (surv_attr_loop n (is_cond pk) g ln eln items false names (attr_labels InInit true false) nd up c HR) as Ka.
+      destruct (attr_loop (is_cond pk) g ln eln items false names (attr_labels InInit true false) nd up) as [u' evs].
+      cbn [l_own l_up fst] in *. rewrite Kd. exact Ka.
+  - (* SAnn *)
+    simpl sem_stmt. unfold level_binds, receiver in *. unfold op_attr. destruct (fkind own) eqn:Kd.
+    + simpl level_bindings. destruct (names_scope [t]) as [names|]; [|cbn [l_own l_up]; rewrite Kd; exact HR].
+      pose proof (surv_attr_loop n (is_cond pk) g ln eln items false names (attr_labels InModule hv cv) nd own c HR) as Ka.
+      pose proof (shape_attr_loop (is_cond pk) g ln eln items false names (attr_labels InModule hv cv) nd own) as [Sa _].
+      destruct (attr_loop (is_cond pk) g ln eln items false names (attr_labels InModule hv cv) nd own) as [o' evs].
+      cbn [l_own l_up fst] in *. rewrite Sa, Kd. exact Ka.
+    + simpl level_bindings. destruct (names_scope [t]) as [names|]; [|cbn [l_own l_up]; rewrite Kd; exact HR].
+      pose proof (surv_attr_loop n (is_cond pk) g ln eln items false names (attr_labels InClass hv cv) nd own c HR) as Ka.
+      pose proof (shape_attr_loop (is_cond pk) g ln eln items false names (attr_labels InClass hv cv) nd own) as [Sa _].
+      destruct (attr_loop (is_cond pk) g ln eln items false names (attr_labels InClass hv cv) nd own) as [o' evs].
+      cbn [l_own l_up fst] in *. rewrite Sa, Kd. exact Ka.
+    + simpl init_bindings. destruct (names_init [t]) as [names|]; [|cbn [l_own l_up]; rewrite Kd; exact HR].
+      pose proof (surv_attr_loop n (is_cond pk) g ln eln items false names (attr_labels InInit hv cv) nd up c HR) as Ka.
+      destruct (attr_loop (is_cond pk) g ln eln items false names (attr_labels InInit hv cv) nd up) as [u' evs].
+      cbn [l_own l_up fst] in *. rewrite Kd. exact Ka.
+  - (* SAugAll *)
+    simpl sem_stmt. cbn [l_own l_up]. unfold receiver, level_binds in *.
+    destruct (shape_op_augall items own) as [E _]. rewrite E.
+    assert (M : fmembers (op_augall items own) = fmembers own).
+    { unfold op_augall. destruct (fkind own); auto. destruct (fexports own); auto. destruct (items_ok items); auto. }
+    destruct (fkind own); try rewrite M; exact HR.
+  - (* SImport *)
+    simpl sem_stmt. unfold receiver, level_binds in *.
+    pose proof (shape_op_import g ln eln names own) as [Sa _].
+    destruct (fkind own) eqn:Kd.
+    + pose proof (surv_op_import n g ln eln names own c HR) as Ka.
+      destruct (op_import g ln eln names own) as [o' evs]. cbn [l_own l_up fst] in *. rewrite Sa. exact Ka.
+    + pose proof (surv_op_import n g ln eln names own c HR) as Ka.
+      destruct (op_import g ln eln names own) as [o' evs]. cbn [l_own l_up fst] in *. rewrite Sa. exact Ka.
+    + destruct (op_import g ln eln names own) as [o' evs]. cbn [l_own l_up fst] in *. rewrite Sa. exact HR.
+  - (* SImportFrom *)
+    simpl sem_stmt. unfold receiver, level_binds in *.
+    pose proof (shape_op_importfrom g ln eln names own) as [Sa _].
+    destruct (fkind own) eqn:Kd.
+    + pose proof (surv_op_importfrom n g ln eln names own c HR) as Ka.
+      destruct (op_importfrom g ln eln names own) as [o' evs]. cbn [l_own l_up fst] in *. rewrite Sa. exact Ka.
+    + pose proof (surv_op_importfrom n g ln eln names own c HR) as Ka.
+      destruct (op_importfrom g ln eln names own) as [o' evs]. cbn [l_own l_up fst] in *. rewrite Sa. exact Ka.
+    + destruct (op_importfrom g ln eln names own) as [o' evs]. cbn [l_own l_up fst] in *. rewrite Sa. exact HR.
+  - (* SIf *)
+    rewrite ha_SIf in HA. apply orb_false_elim in HA. destruct HA as [HA1 HA2].
+    rewrite sem_SIf. cbv zeta. cbn [l_own l_up].
+    destruct (sem_list_facts body (g || (is_level pk && tc)) PIf (head_doc orelse) own up) as [A1 _].
+    pose proof (surv_list_of _ H n (g || (is_level pk && tc)) PIf (head_doc orelse) own up c HA1 HR) as C. cbv zeta in C.
+    set (a := sem_list (g || (is_level pk && tc)) PIf (head_doc orelse) body own up) in *.
+    pose proof (surv_list_of _ H0 n g PIf None (l_own a) (l_up a) _ HA2 C) as B. cbv zeta in B.
+    rewrite (level_binds_shape own (l_own a) g PIf orelse A1) in B.
+    assert (E : level_binds own g pk (SIf tc body orelse) =
+                level_binds_list own (g || (is_level pk && tc)) PIf body ++ level_binds_list own g PIf orelse).
+    { unfold level_binds, level_binds_list. destruct (fkind own); rewrite ?lb_SIf, ?ib_SIf; reflexivity. }
+    rewrite E, survivor_app. exact B.
+  - (* SBlock *)
+    rewrite ha_SBlock in HA. rewrite sem_SBlock.
+    pose proof (surv_list_of _ H n g POther None own up c HA HR) as B. cbv zeta in B.
+    assert (E : level_binds own g pk (SBlock ch) = level_binds_list own g POther ch).
+    { unfold level_binds, level_binds_list. destruct (fkind own); rewrite ?lb_SBlock, ?ib_SBlock; reflexivity. }
+    rewrite E. exact B.
+  - (* SSub *)
+    rewrite ha_SSub in HA. rewrite sem_SSub.
+    pose proof (surv_list_of _ H n g (if h then PHandler else POther) None own up c HA HR) as B. cbv zeta in B.
+    assert (E : level_binds own g pk (SSub h body) = level_binds_list own g (if h then PHandler else POther) body).
+    { unfold level_binds, level_binds_list. destruct (fkind own); rewrite ?lb_SSub, ?ib_SSub; reflexivity. }
+    rewrite E. exact B.
+  - simpl. unfold level_binds. destruct (fkind own); exact HR.
+  - simpl. unfold level_binds. destruct (fkind own); exact HR.
+Qed.
+
+Lemma surv_list_all : forall l, surv_list l.
+Proof. intros. apply surv_list_of. apply Forall_forall. intros. apply surv_stmt_all. Qed.
+
+(* kind, reported first line and runtime flag of every module member are those of the binding that survives *)
+Theorem surviving_kind : forall mname body r n,
+  has_accessor_list body = false -> run_visit mname body = Ok r ->
+  option_map osum (lookup n (r_members r)) =
+  option_map bsum (survivor n None (level_bindings_list InModule mname false PScope body)).
+Proof.
+  intros mname body r n HA. rewrite machine_computes_level_semantics. unfold spec_module.
+  destruct (l_err _); [discriminate|]. intros E. injection E as E. subst r. cbn [r_members].
+  pose proof (surv_list_all body n false PScope None (empty_frame InModule mname mname) sentinel None HA) as S.
+  cbv zeta in S. unfold receiver, level_binds_list in S.
+  destruct (sem_list_facts body false PScope None (empty_frame InModule mname mname) sentinel) as [[E _] _].
+  rewrite E in S. simpl fkind in S. simpl fpath in S. cbv iota in S. apply S. reflexivity.
+Qed.
+
+Theorem class_surviving_kind : forall g pk nd ln dln eln name ds body own up n,
+  has_accessor_list body = false ->
+  exists o, lookup name (fmembers (l_own (sem_stmt g pk nd (SCls ln dln eln name ds body) own up))) = Some o /\
+            option_map osum (lookup n (omembers o)) =
+            option_map bsum (survivor n None (level_bindings_list InClass (child_path own name) g PScope body)).
+Proof.
+  intros. rewrite sem_SCls. cbv zeta. cbn [l_own fmembers set_members]. rewrite lookup_assign_same.
+  eexists. split; [reflexivity|]. cbn [omembers].
+  pose proof (surv_list_all body n g PScope None (empty_frame InClass name (child_path own name)) sentinel None H) as S.
+  cbv zeta in S. unfold receiver, level_binds_list in S.
+  destruct (sem_list_facts body g PScope None (empty_frame InClass name (child_path own name)) sentinel) as [[E _] _].
+  rewrite E in S. simpl fkind in S. simpl fpath in S. cbv iota in S. apply S. reflexivity.
+Qed.
+
+(* ================= witnesses of the known defects that the model reproduces ================= *)
+Definition member_doc (mname : string) (body : list stmt) (n : string) : option (option nat) :=
+  match run_visit mname body with Ok r => option_map (fun o => idoc (oinfo o)) (lookup n (r_members r)) | Err _ => None end.
+Definition member_labels (mname : string) (body : list stmt) (n : string) : option (list string) :=
+  match run_visit mname body with Ok r => option_map (fun o => ilabels (oinfo o)) (lookup n (r_members r)) | Err _ => None end.
+
+(* F2:  if c: x = 1 / else: 'string'   -- the string in the else branch becomes the docstring of x *)
+Definition doc_else_witness : list stmt := [SIf false [SAssign 2 2 [TName "x"] []] [SDoc 4 4]].
+(* F3:  x = 1 / 'doc of x' / async def y(): ... / x = y = 2   -- y receives the docstring of the old x *)
+Definition chained_leak_witness : list stmt :=
+  [SAssign 1 1 [TName "x"] []; SDoc 2 2; SDef 3 3 3 "y" true [] [SOther]; SAssign 4 4 [TName "x"; TName "y"] []].
+Lemma attribute_docstring_refuted :
+  member_doc "m" doc_else_witness "x" = Some (Some 4) /\
+  member_doc "m" chained_leak_witness "y" = Some (Some 2).
+Proof. split; vm_compute; reflexivity. Qed.
+
+(* F6:  @overload def f(): ...  alone binds f in Python and yields no member *)
+Definition overload_only_witness : list stmt := [SDef 2 1 2 "f" false [DPath "typing.overload"] [SOther]].
+Lemma overload_only_refuted :
+  exists r, run_visit "m" overload_only_witness = Ok r /\ r_members r = [].
+Proof. eexists. split; vm_compute; reflexivity. Qed.
+
+(* ---- statements packaged for Properties/C01.v ---- *)
+Lemma visit_total_refuted_ex : exists body, run_visit "m" body = Err "TypeError".
+Proof. exists overload_in_init_witness. exact visit_total_refuted. Qed.
+
+(* non-vacuity: a module on which every hypothesis of the theorems holds and several rules fire *)
+Definition sample_module : list stmt :=
+  [SDoc 1 1;
+   SImport 2 2 [("os", "os")];
+   SIf true [SImportFrom 4 4 [IName "T" "typing.T"]] [SAssign 6 6 [TName "x"] []];
+   SCls 8 7 14 "C" [DPath "dataclasses.dataclass"]
+     [SDoc 9 9; SAssign 10 10 [TName "x"] []; SDoc 11 11;
+      SDef 12 12 14 "__init__" false [] [SAssign 13 13 [TSelf "y"] []; SIf false [SAssign 14 14 [TSelf "x"] []] []]];
+   SDef 15 15 15 "x" false [] [SOther];
+   SBlock [SAssign 17 17 [TName "x"] []; SSub true [SAssign 19 19 [TName "x"] []]]].
+Example sample_module_ok :
+  gap_overload_in_init_list InModule sample_module = false /\ has_accessor_list sample_module = false /\
+  first_names [] (level_bindings_list InModule "m" false PScope sample_module) = ["os"; "T"; "x"; "C"] /\
+  option_map bsum (survivor "x" None (level_bindings_list InModule "m" false PScope sample_module)) = Some (KAttr, 17, true) /\
+  option_map bsum (survivor "T" None (level_bindings_list InModule "m" false PScope sample_module)) = Some (KAlias, 4, false).
+Proof. vm_compute. repeat split; reflexivity. Qed.
